@@ -251,7 +251,11 @@ func Run(j *job.Job, s *job.Sink) {
 				case tpl == 0:
 					steps := strings.Split(t.devPath(), "/")
 					steps[1+r.Intn(len(steps)-1)] = "bb:zz9"
-					fmt.Fprintf(devText, "  deviation %s { deviate replace { config true; } }\n", strings.Join(steps, "/"))
+					// what the deviation would do does not matter: its target is missing (not-supported
+					// alone is the interesting one under the ignore option, which must not make the
+					// missing target disappear too)
+					body := []string{"deviate replace { config true; }", "deviate not-supported;", "deviate add { default q; }"}[r.Intn(3)]
+					fmt.Fprintf(devText, "  deviation %s { %s }\n", strings.Join(steps, "/"), body)
 					wantErr = "missing-target"
 					continue
 				case tpl == 1 && !targeted[t.name]:
@@ -482,8 +486,18 @@ func Run(j *job.Job, s *job.Sink) {
 		for mi := range texts {
 			texts[mi].WriteString("}\n")
 		}
+		// One case in five loads a second, older revision of the first deviating module with
+		// the same deviations: a module's deviations take effect once, however many
+		// revisions of it are loaded.
+		olderRev := ""
+		if r.Intn(5) == 0 {
+			cur := texts[0].String()
+			olderRev = strings.Replace(cur, "prefix d;", "prefix d; revision 2019-01-01;", 1)
+			texts[0].Reset()
+			texts[0].WriteString(strings.Replace(cur, "prefix d;", "prefix d; revision 2021-01-01;", 1))
+		}
 
-		caseDesc = map[string]string{"b.yang": base.String(), "a.yang": augText.String(), "d.yang+e.yang": allDev(), "ignore_not_supported_option": fmt.Sprint(ignoreNS)}
+		caseDesc = map[string]string{"b.yang": base.String(), "a.yang": augText.String(), "d.yang+e.yang": allDev(), "d@2019-01-01.yang": olderRev, "ignore_not_supported_option": fmt.Sprint(ignoreNS)}
 		for _, blk := range strings.Split(allDev(), "deviation ")[1:] {
 			kinds := map[string]bool{}
 			for _, k := range []string{"deviate add", "deviate replace", "deviate delete", "deviate not-supported"} {
@@ -514,6 +528,11 @@ func Run(j *job.Job, s *job.Sink) {
 			if withDev {
 				for mi := range texts {
 					if err := ms.Parse(texts[mi].String(), []string{"d.yang", "e.yang"}[mi]); err != nil {
+						return ms, []error{err}
+					}
+				}
+				if olderRev != "" {
+					if err := ms.Parse(olderRev, "d@2019-01-01.yang"); err != nil {
 						return ms, []error{err}
 					}
 				}
@@ -685,6 +704,9 @@ func Run(j *job.Job, s *job.Sink) {
 		}
 		if ndm > 1 {
 			s.Count("cases_with_two_deviating_modules", 1)
+		}
+		if olderRev != "" {
+			s.Count("cases_with_two_revisions_of_a_deviating_module", 1)
 		}
 		if len(verdicts) > 1 {
 			bad("verdict-unstable", "%v\n%s", verdicts, allDev())
